@@ -128,6 +128,14 @@ def check(prop: str, tier: str) -> int:
             selftest(prop, corpus, rep, tier)
         except Exception as e:
             rep.note(f"self-test harness failed: {type(e).__name__}: {e}")
+        if tier == "thorough":
+            try:
+                from .seedreg import benign_regression, regression
+
+                regression(prop, rep)
+                benign_regression(prop, rep)
+            except Exception as e:
+                rep.note(f"seeded-regression harness failed: {type(e).__name__}: {e}")
     meta = dict(mod.META)
     meta["checker_cmd"] = f"./check {prop} --tier {tier}"
     return rep.finish(meta, write=os.environ.get("MYSTSA_NOWRITE") != "1")
